@@ -84,6 +84,9 @@ def token_lines(tok, i, st):
         sh = shebangs_of(_f)
         # a body line that merely looks like a first-line declaration (only the very first line of a file is one)
         return [f"{sh[-1]} body_line_{i}" if sh else f"shebangless_body_{i} = {i}"]
+    if tok == "R":
+        # a code line that holds a carriage return as data (a Vim mapping, a test fixture): only judged in LF files
+        return [f"map_{i} = 'a\rb'"]
     if tok == "N":
         # an SPDX snippet further down in the file: its comment belongs to the snippet, it is not the file's header
         c1 = (lambda t: f"{single} {t}") if single else (lambda t: f"{multi[0]} {t} {multi[2].strip()}")
@@ -135,7 +138,7 @@ def split_by_construction(seq, st, prefix_lines, replace):
 
 
 def bounds(tier, seed):
-    return {"tokens": list(TOKENS) + ["X (multi-line-only styles)", "G (5000-character line), U (one-line header), Q (code line quoting U's text): 26 fixed sequences per style; N (snippet block)"], "max_len": {"python,c": 3 if tier == "quick" else 4, "other styles": 2 if tier == "quick" else 3},
+    return {"tokens": list(TOKENS) + ["X (multi-line-only styles)", "G (5000-character line), U (one-line header), Q (code line quoting U's text): 26 fixed sequences per style; N (snippet block), R (carriage return as data in an LF file, 10 sequences)"], "max_len": {"python,c": 3 if tier == "quick" else 4, "other styles": 2 if tier == "quick" else 3},
             "styles": list(all_styles(tier)), "prefixes": ["none", "BOM", "shebang (styles that define one)", "BOM+shebang", "'#!' interpreter line (every style, 8 fixed sequences)"],
             "line_endings": ["LF", "CRLF", "CR"], "final_newline": [True, False], "modes": ["replace", "--no-replace"],
             "seed_slice": "sequences of the next length starting with TOKENS[seed % 10] for python" if tier == "quick" else None}
@@ -173,6 +176,12 @@ def cases(tier, seed):
                     for final in (True, False):
                         for replace in (True, False):
                             yield {"style": name, "seq": s, "prefix": prefix, "ending": ending, "final": final, "replace": replace}
+    for name in all_styles(tier):
+        for s in ("R", "CR", "RC", "HR", "RH", "CRH", "RRC", "CCCR", "RCCC", "CRC"):
+            for prefix in ("none", "bom", "shebang"):
+                for final in (True, False):
+                    for replace in (True, False):
+                        yield {"style": name, "seq": s, "prefix": prefix, "ending": "\n", "final": final, "replace": replace}
     if tier == "quick":
         first = TOKENS[seed % 10]
         for tup in itertools.product(TOKENS, repeat=deep):
@@ -236,6 +245,10 @@ def evaluate(c) -> R:
         r.outcome, r.nontrivial = "n/a-empty", False
         return r
     old = "\n".join(old_lines) + ("\n" if c["final"] else "")
+    if "R" in seq and old.count("\n") <= old.count("\r"):
+        # not an LF file by any count: a file whose only line break is the carriage return *is* a CR file
+        r.outcome, r.nontrivial = "n/a", False
+        return r
     bom = BOM if "bom" in c["prefix"] else ""
     old = bom + old
     ending = c["ending"]
@@ -272,7 +285,11 @@ def evaluate(c) -> R:
     if has_term or ending == "\n":
         probe = new.replace("\r\n", "\x00") if ending == "\r\n" else new
         other = {"\n": ["\r"], "\r\n": ["\r", "\n"], "\r": ["\n"]}[ending]
-        if any(o in probe for o in other):
+        if "R" in seq:
+            # the carriage returns that are data must still be there, and no other
+            if new.count("\r") != old.count("\r"):
+                r.violation(f"line-ending|{sig}|stray-cr", f"{label}: old file is an LF file with {old.count(chr(13))} carriage return(s) as data, new file has {new.count(chr(13))}: {new_b[:200]!r}")
+        elif any(o in probe for o in other):
             r.violation(f"line-ending|{sig}|{ending!r}", f"{label}: old file used {ending!r} only, new file {new_b!r} mixes conventions")
         new_n = new.replace(ending, "\n")
     else:
@@ -316,7 +333,7 @@ def evaluate(c) -> R:
                 if t not in middle:
                     r.violation(f"new-tag-outside-header|{sig}", f"{label}: {t!r} not inside the header block; new file {new_n!r}")
             for i, tok in enumerate(seq):
-                if tok in "CIFSXGQN" and not (h_lo <= i <= h_up):
+                if tok in "CIFSXGQNR" and not (h_lo <= i <= h_up):
                     body = token_lines(tok, i, st)[-1 if tok == "X" else (1 if tok == "N" else 0)].strip()
                     if body in middle or (tok == "X" and f"after_terminator_{i} = {i}" in middle):
                         r.violation(f"body-line-inside-header|{sig}", f"{label}: body line {body!r} ended up inside the header block {middle!r}")
